@@ -43,8 +43,8 @@ def run(ctx: Ctx):
         for l in own_nodes(fn):
             if isinstance(l, ast.For) and norm(l.iter) == "self.project.tasks":
                 n += 1
-                ident = [c for c in ast.walk(l) if isinstance(c, ast.Compare) and isinstance(c.ops[0], ast.Is)
-                         and norm(c.comparators[0]) == "self.property"]
+                from .common import edge_selects_me
+                ident = [c for c in ast.walk(l) if edge_selects_me(ctx, fn, c)]
                 appends = [c for c in ast.walk(l) if isinstance(c, ast.Call) and isinstance(c.func, ast.Attribute) and c.func.attr == "append"]
                 guarded = all(any(any(x is a for x in ast.walk(i)) for i in ast.walk(l) if isinstance(i, ast.If)
                                   and any(cmp_ in list(ast.walk(i.test)) for cmp_ in ident)) for a in appends)
